@@ -22,10 +22,15 @@ JsonRange == 1000..1000000
 
 \* a run of a recursive program: maxdepth = deepest frame pushed, refused = a call was
 \* refused, refusedepth = the frame depth that was refused, ok = the run succeeded
+\* need = the number of frames the program needs at its deepest point (levels x frames per level + entry;
+\* 0 when not known: runaway recursion).  Frames are what is limited, and only frames that are in use:
+\* whatever ran before (thousands of completed calls and match scopes, signals leaving them) leaves none.
 CallOK(L) == \A i \in Of("call") :
   /\ Obs[i].maxdepth <= L
   /\ Obs[i].refused = 1 => Obs[i].refusedepth = L + 1 /\ Obs[i].ok = 0
   /\ Obs[i].refused = 0 => Obs[i].ok = 1
+  /\ Obs[i].need > 0 => ((Obs[i].ok = 1) <=> (Obs[i].need <= L))
+  /\ Obs[i].need > 0 => (Obs[i].ok = 1 => Obs[i].maxdepth = Obs[i].need)
 \* a[x] = 1 on an empty array
 FillOK(F) == \A i \in Of("fill") : (Obs[i].ok = 1) <=> (Obs[i].x <= F)
 Abs(n) == IF n < 0 THEN 0 - n ELSE n
